@@ -14,6 +14,12 @@ from coba.primitives import Dense, Sparse, Filter
 
 from coba.pipes.rows import HeadRows, LazyDense, LazySparse
 
+_r_escaped = re.compile(r"\\(.)")
+
+def _unescape(item:str) -> str:
+    #a backslash escapes the character after it (including another backslash)
+    return _r_escaped.sub(lambda m: m.group(1), item)
+
 class CsvReader(Filter[Iterable[str], Iterable[MutableSequence]]):
     """A filter capable of parsing CSV formatted data."""
 
@@ -85,7 +91,7 @@ class ArffAttrReader(Filter[Iterable[str], Iterable[Tuple[str,Callable]]]):
                     while item.rstrip()[-1] != q or item.rstrip()[-2]=="\\":
                         item += next(items)
 
-                    item = item.strip().rstrip()[1:-1].replace("\\",'')
+                    item = _unescape(item.strip().rstrip()[1:-1])
                 else:
                     item = item.strip()
 
@@ -265,7 +271,7 @@ class ArffLineReader(Filter[str, Sequence[str]]):
                     item += "," + d_line.popleft()
                 item = item.strip()[1:-1]
 
-            parsed.append(item.replace('\\',''))
+            parsed.append(_unescape(item))
 
         if len(parsed) != self._n_columns:
             raise CobaException(f"We were unable to parse a line in a way that matched the expected attributes.")
